@@ -20,6 +20,16 @@ IS_CORO_FN = z3.Function('is_coroutine_function', PyV, BoolS)
 IS_CALLABLE = z3.Function('is_callable', PyV, BoolS)
 TAG_IN = z3.Function('tag_in', PyV, StrS, BoolS)
 USER = 'user code: '
+
+
+def _none_axioms():
+    # None has none of the attributes the engine probes on declared objects
+    return [z3.Not(HAS_ATTR(NONE, z3.StringVal(n))) for n in ('name', 'node_type', '__module__', 'process', 'default_factory',
+                                                                '__annotations__', '__generic_class__')]
+
+
+from .values import EXTRA_AXIOMS   # noqa: E402
+EXTRA_AXIOMS.append(_none_axioms)
 SEQ_LEN = z3.Function('seq_len', PyV, IntS)
 SEQ_AT = z3.Function('seq_at', PyV, IntS, PyV)
 
@@ -126,9 +136,18 @@ class UserCallPlugin:
                     'name', 'verbose_name', 'save', 'load', '_shutdown', '_shutdown_thread', 'value', 'hex',
                     '__name__', '__module__', '__doc__', '__annotations__', '__class__', '__generic_class__'):
             st = it.st
+            if name in ('__module__', '__annotations__', '__generic_class__'):
+                # not every object has these: missing -> AttributeError
+                if not st.branch(HAS_ATTR(obj.t, z3.StringVal(name)), f'hasattr-{name}'):
+                    it.raise_builtin('AttributeError', f'object has no attribute {name}')
             if st.branch(PyV.is_none(obj.t), 'attr-of-none'):
                 it.raise_builtin('AttributeError', f'None.{name}')
             used(it, USER + 'attributes of user classes / instances are uninterpreted functions of the object')
+            if name == 'hex':
+                from .interp import STR_OF
+                return (SymS(STR_OF(attr_fn(name)(obj.t))),)     # uuid.hex is a string
+            if name == '__class__':
+                st.assume(attr_fn(name)(obj.t) != NONE)      # every object has a class
             return (lower(attr_fn(name)(obj.t), st),)
         return None
 
